@@ -543,6 +543,10 @@ func runC01(c *Ctx) {
 	checkFlagBytesReadThroughMasks(c, "C01-R1")
 	// "the credited outputs ... each": a credit the wallet asks to record is recorded, whatever it is worth
 	checkExportedWrapperAlwaysRunsWorker(c, "C01-R2")
+	checkDetachedBlockRecordIsTheWalkedOne(c, "C01-R4")
+	// a mined transaction that is not entered into its block's record is invisible to the correction passes and to the
+	// rollback: the store's own writes are under C10-R1's error discipline
+	c.Borrow(runC10, "C10-R1", "C01-R2", func(k string) bool { return strings.HasPrefix(k, "(*wtxmgr.") || strings.HasPrefix(k, "wtxmgr.") })
 	checkArithmeticAccumulators(c, "C01-R2", "wtxmgr")
 
 	// fetchCredits flag bindings: the flags are identified by role (which test they switch off), not by name or
